@@ -298,6 +298,7 @@ class Scheduler:
         self.trace = [] if record_trace else None
         self.locks_held = 0
         self.on_point = None  # optional probe callback(code, lineno)
+        self.on_acquire = None  # optional callback(lock, thread) after a simulated thread took a SimLock
         self._mode = 2
 
     # -- construction
@@ -482,6 +483,8 @@ class Scheduler:
         lock.owner = t
         lock.n_acquired += 1
         self.locks_held += 1
+        if self.on_acquire is not None:
+            self.on_acquire(lock, t)
         return True
 
     def lock_release(self, lock, t):
